@@ -5,8 +5,102 @@ Deliberately independent of `Lemmas/StationInv.lean` (which imports `Props/C12.l
 -/
 import ProfiVerif.Model.Station
 import ProfiVerif.Lemmas.Gap
+import ProfiVerif.Lemmas.TokenRing
 
 namespace PV
+
+/-! ## `set_next_station(a)` makes `a` the successor -/
+namespace TokenRing
+
+/-- NS is the first LAS entry above TS … -/
+theorem updateNextPrev_ns_above (r : TokenRing) (a : Nat) (ha : a < 128) (hact : r.isActive a = true)
+    (hgt : r.ts < a) (hfree : ∀ b, r.ts < b → b < a → r.isActive b = false) : (updateNextPrev r).ns = a := by
+  have hf : List.find? (fun x => decide (r.isActive x = true ∧ decide (x > r.ts) = true)) (List.range 128) = some a := by
+    rw [List.find?_range_eq_some]
+    refine ⟨by simp [hact, hgt], by simp [ha], ?_⟩
+    intro j hj
+    by_cases h : r.ts < j
+    · simp [hfree j h hj]
+    · simp [h]
+  simp only [updateNextPrev, activeList, List.find?_filter, hf]
+
+/-- … or, if there is none, the lowest LAS entry. -/
+theorem updateNextPrev_ns_below (r : TokenRing) (a : Nat) (ha : a < 128) (hact : r.isActive a = true)
+    (hlt : a < r.ts) (hfree1 : ∀ b, r.ts < b → r.isActive b = false) (hfree2 : ∀ b, b < a → r.isActive b = false) :
+    (updateNextPrev r).ns = a := by
+  have hf : List.find? (fun x => decide (r.isActive x = true ∧ decide (x > r.ts) = true)) (List.range 128) = none := by
+    rw [List.find?_range_eq_none]
+    intro i _
+    by_cases h : r.ts < i
+    · simp [hfree1 i h]
+    · simp [h]
+  have hh : List.find? r.isActive (List.range 128) = some a := by
+    rw [List.find?_range_eq_some]
+    refine ⟨hact, by simp [ha], ?_⟩
+    intro j hj
+    simp [hfree2 j hj]
+  simp only [updateNextPrev, activeList, List.find?_filter, hf, List.head?_filter, hh]
+
+/-- **`set_next_station(a)` really makes `a` the next station** (for every LAS content), `a ≠ TS`. -/
+theorem setNextStation_ns (r r' : TokenRing) (a : Nat) (hne : a ≠ r.ts) (hts : r.ts < 128)
+    (h : r.setNextStation a = some r') : r'.ns = a ∧ r'.ts = r.ts ∧ r'.las = r.las ∧ r'.isActive a = true := by
+  unfold setNextStation at h
+  split at h
+  · cases h
+  · rename_i ha
+    have ha : a < 128 := by omega
+    generalize hq : ({ r with active := Vector.ofFn fun i => if i.val = a then true else r.active[i] } : TokenRing) = q at h
+    injection h with h
+    subst h
+    have hqts : q.ts = r.ts := by rw [← hq]
+    have hqlas : q.las = r.las := by rw [← hq]
+    have hqa : q.isActive a = true := by rw [← hq]; simp [isActive, ha]
+    have hact : ∀ b, b < 128 → (q.updateLas r.ts a).isActive b = passBit r.ts a b (q.isActive b) :=
+      fun b hb => updateLas_active q r.ts a b hb
+    have hl := updateLas_las q r.ts a
+    refine ⟨?_, by rw [hl.2, hqts], by rw [hl.1, hqlas], ?_⟩
+    · -- NS
+      obtain ⟨q', hu, hq'ts0, hq'a⟩ : ∃ q' : TokenRing, q.updateLas r.ts a = updateNextPrev q' ∧ q'.ts = q.ts ∧
+          (∀ b, q'.isActive b = (q.updateLas r.ts a).isActive b) := by
+        unfold updateLas
+        exact ⟨_, rfl, rfl, fun b => (updateNextPrev_active _ b).symm⟩
+      have hq'ts : q'.ts = r.ts := by rw [hq'ts0, hqts]
+      have hq'act : ∀ b, b < 128 → q'.isActive b = passBit r.ts a b (q.isActive b) := by
+        intro b hb
+        rw [hq'a b, hact b hb]
+      have hq'lt : ∀ b, q'.isActive b = true → b < 128 := fun b hb => isActive_lt q' b hb
+      rw [hu]
+      by_cases hgt : r.ts < a
+      · apply updateNextPrev_ns_above q' a ha
+        · rw [hq'act a ha]; simp [passBit, inPassGap, hne, hgt, hqa]
+        · rw [hq'ts]; exact hgt
+        · intro b h1 h2
+          rw [hq'ts] at h1
+          rw [hq'act b (by omega)]
+          simp [passBit, inPassGap, hgt]
+          omega
+      · have hlt : a < r.ts := by omega
+        apply updateNextPrev_ns_below q' a ha
+        · rw [hq'act a ha]; simp [passBit, inPassGap, hne, hgt, hqa]; omega
+        · rw [hq'ts]; exact hlt
+        · intro b h1
+          rw [hq'ts] at h1
+          by_cases hb : b < 128
+          · rw [hq'act b hb]
+            simp [passBit, inPassGap, hgt]
+            omega
+          · cases hq'b : q'.isActive b with
+            | false => rfl
+            | true => exact absurd (hq'lt b hq'b) hb
+        · intro b h1
+          rw [hq'act b (by omega)]
+          simp [passBit, inPassGap, hgt]
+          omega
+    · rw [hact a ha]
+      simp [passBit, inPassGap, hne, hqa]
+      omega
+
+end TokenRing
 namespace StationGap
 
 /-! ## Frames the station builds itself -/
